@@ -1,2 +1,130 @@
-(* C18: statements only; theorems are added as the model of the anchored mechanism is proved *)
-From GGRS Require Import Base.
+(* C18 (endpoint half) — sizes of the per-endpoint buffers (send_queue, pending_output, recv_inputs,
+   pending_checksums, event_queue).  Statements only; every proof is `exact <lemma>` (EndpointSafety.v).
+   Model: Endpoint.v (src/network/protocol.rs, correspondence level `endpoint`), current code, both profiles.
+   All theorems are per operation ([step]) for arbitrary states or by induction over [EndpointSpec.run] from
+   [ep_new] for every configuration and every operation sequence with arbitrary packets, unless a hypothesis
+   restricts the traffic.  C18 quantifies over what the NETWORK does to genuine traffic; the two `_refuted`
+   witnesses below need packets FORGED BY THE AUTHORIZED PEER and are recorded to delimit the theorems. *)
+From GGRS Require Import Base Consts TimeSync Codec Endpoint EndpointSpec EndpointProofs EndpointSafety.
+Open Scope Z_scope.
+
+(* send_queue: emptied by drain (send_all_messages); between drains every operation appends at most two
+   messages (nothing is removed or reordered), all under the endpoint's own magic *)
+Theorem C18_send_queue_step : forall dbg o s s' out, step dbg o s = Ok (s', out) ->
+  match o with ODrain => u_send_queue s' = [] | _ => eps_appended 2 s s' end.
+Proof. exact eps_send_queue_step. Qed.
+
+(* pending_output: every reachable state satisfies [eps_inv], whose second component is
+     PENDING_OUTPUT_SIZE < |pending_output|  ->  disconnect_event_sent
+   i.e. once the length exceeds 128 the Disconnected event has been raised (exactly once, C12) *)
+Theorem C18_reachable_inv : forall now magic handles np lp mp timeout notify fps desync dbg ops s evs,
+  run dbg (ep_new now magic handles np lp mp timeout notify fps desync) ops = Ok (s, evs) -> eps_inv s.
+Proof. exact eps_reach_inv. Qed.
+
+(* only send_input lets it grow, by one entry; Disconnected / Shutdown is never left and nothing grows there *)
+Theorem C18_pending_output_step : forall dbg o s s' out, step dbg o s = Ok (s', out) ->
+  (length (u_pending_output s') <= length (u_pending_output s) + (if eps_is_send o then 1 else 0))%nat /\
+  (eps_dead s -> eps_dead s' /\ (length (u_pending_output s') <= length (u_pending_output s))%nat).
+Proof. exact eps_pending_output_step. Qed.
+
+(* hence: from a state without the event, if the caller calls `disconnect` (what the sessions do when they see
+   Disconnected), |pending_output| <= PENDING_OUTPUT_SIZE + number of send_input calls made before that
+   disconnect, for ever after (the call that overflows is one of them: 129 in the sessions) *)
+Theorem C18_pending_output_bound : forall dbg s ops1 now ops2 s' evs,
+  eps_inv s -> u_event_sent s = false ->
+  run dbg s (ops1 ++ ODisconnect now :: ops2) = Ok (s', evs) ->
+  (length (u_pending_output s') <= N.to_nat PENDING_OUTPUT_SIZE + eps_count_sends ops1)%nat.
+Proof. exact eps_pending_output_bound. Qed.
+
+(* recv_inputs.  (1) the postcondition of every completed on_input (loop finished, ack queued, pruning done;
+   b2421d6 retain rule `k >= min(last_recv_frame - 2*max_prediction, start_frame - 1)`), for a window
+   0 <= max_prediction < 2^30:  |recv_inputs| <= max (2*max_prediction) (last_recv_frame - start_frame + 1) + 1,
+   the key invariant [eps_ri_ok] (distinct keys in [-1, i32::MAX], never empty, so last_recv_frame is a key) is
+   kept, and every old entry at or above the pruning threshold is still found *)
+Theorem C18_recv_inputs_completed : forall dbg now sf inputs s3 s4 w lo ref,
+  eps_ri_ok s3 -> eps_window_ok s3 -> 0 <= sf ->
+  alookup (eps_decode_frame s3 sf) (u_recv_inputs s3) = Some ref ->
+  accept_inputs dbg sf 0 inputs s3 = Ok (true, s4) ->
+  ts_i32_arith dbg (2 * ts_wrap_i32 (u_max_prediction s4)) = Ok w ->
+  ts_i32_arith dbg (last_recv_frame s4 - w) = Ok lo ->
+  let s' := set_recv_inputs (aretain_ge (Z.min lo (sf - 1)) (u_recv_inputs s4)) (send_input_ack now s4) in
+  eps_ri_ok s' /\ last_recv_frame s' = last_recv_frame s4 /\ last_recv_frame s3 <= last_recv_frame s4 /\
+  Z.of_nat (length (u_recv_inputs s')) <=
+    Z.max (2 * u_max_prediction s3) (last_recv_frame s' - sf + 1) + 1 /\
+  ((length (u_recv_inputs s') <= length (u_recv_inputs s3))%nat \/
+   last_recv_frame s' <= sf + Z.of_nat (length inputs) - 1) /\
+  (forall k v, In (k, v) (u_recv_inputs s') -> In (k, v) (u_recv_inputs s4)) /\
+  (forall k v, In (k, v) (u_recv_inputs s3) -> Z.min (last_recv_frame s4 - 2 * u_max_prediction s3) (sf - 1) <= k ->
+               alookup k (u_recv_inputs s') = Some v).
+Proof. exact eps_complete_exit_ri. Qed.
+
+(* (2) per operation: only handle_message(Input) changes recv_inputs, by at most MAX_DECODED_INPUTS entries;
+   if no decoded frame has the wrong size ([eps_shaped]) the bound max (2*max_prediction) MAX_DECODED_INPUTS + 1 is kept *)
+Theorem C18_recv_inputs_step : forall dbg o s s' out, step dbg o s = Ok (s', out) ->
+  (length (u_recv_inputs s') <= length (u_recv_inputs s) + N.to_nat MAX_DECODED_INPUTS)%nat /\
+  u_handles s' = u_handles s /\ u_max_prediction s' = u_max_prediction s /\
+  (eps_inv s -> eps_window_ok s -> eps_shaped dbg (length (u_handles s)) o ->
+   Z.of_nat (length (u_recv_inputs s)) <= eps_ri_bound s -> Z.of_nat (length (u_recv_inputs s')) <= eps_ri_bound s).
+Proof. exact eps_recv_inputs_step. Qed.
+
+(* (3) every reachable state, for traffic none of whose decoded frames has the wrong size (all genuine packets,
+   whatever the network loses, duplicates or reorders) and a window 0 <= max_prediction < 2^30 *)
+Theorem C18_recv_inputs_bounded : forall now magic handles np lp mp timeout notify fps desync dbg ops s evs,
+  0 <= mp <= EPS_MAX_WINDOW ->
+  let s0 := ep_new now magic handles np lp mp timeout notify fps desync in
+  Forall (eps_shaped dbg (length (u_handles s0))) ops ->
+  run dbg s0 ops = Ok (s, evs) ->
+  Z.of_nat (length (u_recv_inputs s)) <= Z.max (2 * mp) (Z.of_N MAX_DECODED_INPUTS) + 1.
+Proof. exact eps_recv_inputs_bounded. Qed.
+
+(* forged by the authorized peer: the wrong-size exit of the accept loop keeps the frames before the offending
+   one but skips the pruning - 20 packets [good; good; 3 bytes] at window 0 leave 41 entries (nothing is ever
+   pruned while such packets keep coming).  Confirmed on the real endpoint (p_endpoint_gen.recv_inputs_unbounded_script) *)
+Theorem C18_recv_inputs_unbounded_refuted :
+  exists s evs, run true eps_w_new0 eps_w_grow = Ok (s, evs) /\
+    length (u_recv_inputs s) = 41%nat /\ last_recv_frame s = 39 /\ u_max_prediction s = 0 /\ u_send_queue s <> [].
+Proof. exact eps_recv_inputs_unbounded_refuted. Qed.
+
+(* pending_checksums: one report adds at most one entry, nothing else adds any ... *)
+Theorem C18_pending_checksums_growth : forall dbg o s s' out, step dbg o s = Ok (s', out) ->
+  Z.of_nat (length (u_pending_checksums s')) <= Z.of_nat (length (u_pending_checksums s)) + 1.
+Proof. exact eps_pending_checksums_growth. Qed.
+
+(* ... and for reports handled in order of their frames (each frame >= every stored frame, 0 <= frame <= i32::MAX;
+   what a genuine peer sends if the network does not reorder reports) with interval <= 2^26:
+   |pending_checksums| <= max MAX_CHECKSUM_HISTORY_SIZE (31 * interval + 1)  (= 32 for interval 1) *)
+Theorem C18_pending_checksums_bounded : forall now magic handles np lp mp timeout notify fps desync dbg ops s evs,
+  let s0 := ep_new now magic handles np lp mp timeout notify fps desync in
+  let interval := match desync with Some i => i | None => 1 end in
+  1 <= interval <= EPS_MAX_INTERVAL ->
+  eps_reports_in_order dbg s0 ops -> run dbg s0 ops = Ok (s, evs) ->
+  Z.of_nat (length (u_pending_checksums s)) <= Z.max MAX_CHECKSUM_HISTORY_SIZE (31 * interval + 1).
+Proof. exact eps_pending_checksums_bounded. Qed.
+
+(* forged by the authorized peer (or unbounded reordering of genuine reports): the pruning threshold is relative
+   to the NEW report's frame, so 40 reports with strictly decreasing frames are all kept (> 32 + 1).
+   Confirmed on the real endpoint (p_endpoint_gen.checksums_unbounded_script) *)
+Theorem C18_pending_checksums_unbounded_refuted :
+  exists s evs, run true eps_w_new_ds eps_w_reports = Ok (s, evs) /\ length (u_pending_checksums s) = 40%nat /\
+    (MAX_CHECKSUM_HISTORY_SIZE + 1 < 40).
+Proof. exact eps_pending_checksums_unbounded_refuted. Qed.
+
+(* event_queue of the endpoint: every poll hands all of it to the caller *)
+Theorem C18_event_queue_polled : forall dbg now nonce cs s s' out,
+  step dbg (OPoll now nonce cs) s = Ok (s', out) -> u_event_queue s' = [].
+Proof. exact eps_event_queue_polled. Qed.
+
+(* non-vacuity: 129 unacknowledged inputs, the poll reports Disconnected once, the caller disconnects, five more
+   send_input calls: still 129 entries *)
+Example C18_pending_output_example :
+  exists s evs, run true w_new (w_handshake ++ w_sends 0 129 ++ [OPoll 0 200 w_status; ODisconnect 0] ++ w_sends 0 5)
+                = Ok (s, evs) /\
+    length (u_pending_output s) = 129%nat /\ count_disconnected evs = 1%nat.
+Proof. exact eps_pending_output_example. Qed.
+
+Check C18_recv_inputs_bounded : forall now magic handles np lp mp timeout notify fps desync dbg ops s evs,
+  0 <= mp <= EPS_MAX_WINDOW ->
+  let s0 := ep_new now magic handles np lp mp timeout notify fps desync in
+  Forall (eps_shaped dbg (length (u_handles s0))) ops ->
+  run dbg s0 ops = Ok (s, evs) ->
+  Z.of_nat (length (u_recv_inputs s)) <= Z.max (2 * mp) (Z.of_N MAX_DECODED_INPUTS) + 1.
